@@ -213,6 +213,7 @@ class Builtins:
     def contains(self, container: Value, item: Value, node, fr) -> bool:
         I = self.I
         label = self.I.up(node) if node is not None else "in"
+        container = self.use_iter(container)    # `x in <iterator>` consumes the iterator
         if isinstance(container, ListV) and container.absorbed is not None:
             container = container.absorbed
         if isinstance(container, Obj):
@@ -425,8 +426,24 @@ class Builtins:
         raise I.unsupported(f"unpack of {v!r}", node, fr)
 
     # ------------------------------------------------------------------ iteration
+    def one_shot(self, v: Value) -> bool:
+        """is v an iterator (generator object, regex.finditer result, zip/map/filter ...): usable once"""
+        return bool(getattr(v, "one_shot", False)) or (isinstance(v, Unknown) and bool(v.meta.get("one_shot")))
+
+    def use_iter(self, v: Value) -> Value:
+        """what iterating v now gives: v itself the first time an iterator is consumed, nothing afterwards"""
+        if not self.one_shot(v):
+            return v
+        used = self.I.run.user.setdefault("$consumed", {})
+        if id(v) in used:
+            self.I.run.event("iterator_reused", value=v)
+            return ListV([])
+        used[id(v)] = v       # keep the object alive: ids must stay unique for the run
+        return v
+
     def iterate(self, it: Value, node, fr) -> Iterator[Tuple[str, Value, str]]:
         I = self.I
+        it = self.use_iter(it)
         if isinstance(it, ListV) and it.absorbed is not None:
             it = it.absorbed
         if isinstance(it, (ListV, TupleV, SetV)):
@@ -464,6 +481,8 @@ class Builtins:
             return self.nested_comprehension(node, elt, gens, fr)
         g = gens[0]
         it = I.eval(g.iter, fr)
+        if isinstance(it, (AbsList, Unknown)) or (isinstance(it, ListV) and it.absorbed is not None):
+            it = self.use_iter(it)          # (concrete iterables are consumed by iterate() below)
         if isinstance(it, ListV) and it.absorbed is not None:
             it = it.absorbed
         saved = dict(fr.locals)
@@ -1078,6 +1097,7 @@ class Builtins:
         return Unknown(f"len({tag})", {"type": "int", "op": "len", "args": [v]})
 
     def x_list(self, args, kwargs, node, fr) -> Value:
+        args = [self.use_iter(args[0])] + list(args[1:]) if args and True else args
         I = self.I
         if not args:
             return ListV([])
@@ -1149,6 +1169,7 @@ class Builtins:
         return Unknown(self.I.run.new_tag("type"))
 
     def x_enumerate(self, args, kwargs, node, fr) -> Value:
+        args = [self.use_iter(args[0])] + list(args[1:]) if args and True else args
         I = self.I
         v = args[0]
         start = args[1].v if len(args) > 1 and isinstance(args[1], IntV) else 0
@@ -1176,6 +1197,7 @@ class Builtins:
                                for a in args]), "zip", {})
 
     def x_all(self, args, kwargs, node, fr) -> Value:
+        args = [self.use_iter(args[0])] + list(args[1:]) if args and True else args
         I = self.I
         v = args[0]
         if isinstance(v, ListV) and v.absorbed is not None:
@@ -1189,6 +1211,7 @@ class Builtins:
         return SymBool(I.run.new_tag("all"))
 
     def x_any(self, args, kwargs, node, fr) -> Value:
+        args = [self.use_iter(args[0])] + list(args[1:]) if args and True else args
         I = self.I
         v = args[0]
         if isinstance(v, ListV) and v.absorbed is not None:
@@ -1200,6 +1223,7 @@ class Builtins:
         return SymBool(I.run.new_tag("any"))
 
     def x_sorted(self, args, kwargs, node, fr) -> Value:
+        args = [self.use_iter(args[0])] + list(args[1:]) if args and True else args
         v = args[0]
         if isinstance(v, ListV) and v.absorbed is not None:
             v = v.absorbed
@@ -1232,6 +1256,7 @@ class Builtins:
         return AbsList(Unknown(self.I.run.new_tag("reversed_elem")), "reversed(...)", {"order": "reversed"})
 
     def x_next(self, args, kwargs, node, fr) -> Value:
+        args = [self.use_iter(args[0])] + list(args[1:]) if args and False else args
         I = self.I
         v = args[0]
         if isinstance(v, ListV) and v.absorbed is not None:
@@ -1295,7 +1320,8 @@ class Builtins:
         I = self.I
         f = args[0] if args else kwargs.get("file", NONE)
         mode = args[1] if len(args) > 1 else kwargs.get("mode", Str.lit("r"))
-        I.run.event("open", file=f, mode=mode, node=node, func=(fr.func.qualname if fr and fr.func else ""))
+        I.run.event("open", file=f, mode=mode, node=node, func=(fr.func.qualname if fr and fr.func else ""),
+                    args=list(args), kwargs=dict(kwargs))
         return Unknown(I.run.new_tag("file"), {"file_of": f, "mode": mode, "truthy": True, "not_none": True,
                                                "expr": f"open({I.expr_of(f)})"})
 
@@ -1427,7 +1453,7 @@ class Builtins:
         return self._rx_call("regex.fullmatch", args, kwargs, node, fr, {"match_or_none": True})
 
     def x_regex_finditer(self, args, kwargs, node, fr) -> Value:
-        return self._rx_call("regex.finditer", args, kwargs, node, fr, {"truthy": True, "elem_truthy": True})
+        return self._rx_call("regex.finditer", args, kwargs, node, fr, {"truthy": True, "elem_truthy": True, "one_shot": True})
 
     def x_re_match(self, args, kwargs, node, fr) -> Value:
         return self._rx_call("re.match", args, kwargs, node, fr, {"match_or_none": True})
